@@ -393,12 +393,46 @@ fn hostile_roundtrip(w: &mut W, prop: &str, want_v9: bool) {
                 match (e, want_v9) {
                     (NetflowPacket::V9(v), true) => {
                         w.rep.count("accepted_hostile_packets", 1);
-                        let tainted = v.flowsets.iter().any(|f| match &f.body {
-                            netflow_parser::variable_versions::v9::FlowSetBody::Data(d) => d.fields.iter().any(|r| r.values().any(|(_, x)| lossy_capable(x, false))),
-                            _ => false,
-                        });
-                        if tainted {
+                        let taint: Vec<bool> = v
+                            .flowsets
+                            .iter()
+                            .map(|f| match &f.body {
+                                netflow_parser::variable_versions::v9::FlowSetBody::Data(d) => d.fields.iter().any(|r| r.values().any(|(_, x)| lossy_capable(x, false))),
+                                _ => false,
+                            })
+                            .collect();
+                        if taint.iter().any(|t| *t) {
+                            // Flowsets that visibly hold a value of a listed lossy class are left out; the
+                            // others must still re-export to exactly the bytes they occupied.
                             w.rep.count("accepted_hostile_not_judged_lossy_value_present", 1);
+                            let mut part = v.clone();
+                            let mut want: Vec<u8> = orig[..20.min(orig.len())].to_vec();
+                            let mut off = 20usize;
+                            let mut kept = vec![];
+                            for (f, t) in v.flowsets.iter().zip(taint.iter()) {
+                                let l = (f.header.length as usize).max(4);
+                                if !*t && off + l <= orig.len() {
+                                    want.extend_from_slice(&orig[off..off + l]);
+                                    kept.push(f.clone());
+                                }
+                                off += l;
+                            }
+                            if kept.is_empty() {
+                                continue;
+                            }
+                            w.rep.count("accepted_hostile_flowsets_judged_in_lossy_packets", kept.len() as u64);
+                            part.flowsets = kept;
+                            match part.to_be_bytes() {
+                                Ok(o) if o == want => {}
+                                Ok(o) => {
+                                    let at = o.iter().zip(want.iter()).position(|(x, y)| x != y).unwrap_or(o.len().min(want.len()));
+                                    bad = Some(div("v9/accepted/export", "bytes", format!("the {} flowsets of an accepted V9 packet that hold no value of a listed lossy class re-export as {} bytes instead of the {} they occupied, first difference at offset {}", part.flowsets.len(), o.len(), want.len(), at)));
+                                }
+                                Err(e) => bad = Some(div("v9/accepted/export", "failed", format!("to_be_bytes failed: {}", e))),
+                            }
+                            if bad.is_some() {
+                                break;
+                            }
                             continue;
                         }
                         match v.to_be_bytes() {
@@ -416,7 +450,10 @@ fn hostile_roundtrip(w: &mut W, prop: &str, want_v9: bool) {
                         let cache = &sut.parsers[*p].ipfix_parser;
                         let mut tainted = false;
                         let mut covered = 16usize;
+                        let mut taint: Vec<bool> = vec![];
                         for f in &v.flowsets {
+                            let tainted_before = tainted;
+                            tainted = false;
                             covered += (f.header.length as usize).max(4);
                             let (fields, id) = match &f.body {
                                 ix::FlowSetBody::Data(d) => (Some(&d.fields), f.header.header_id),
@@ -439,13 +476,47 @@ fn hostile_roundtrip(w: &mut W, prop: &str, want_v9: bool) {
                                     tainted = true;
                                 }
                             }
+                            taint.push(tainted);
+                            tainted = tainted || tainted_before;
                         }
                         // sets after an undecodable set / trailing bytes inside the message are dropped (listed)
-                        if covered != (v.header.length as usize).max(16) {
+                        let incomplete = covered != (v.header.length as usize).max(16);
+                        if incomplete {
                             tainted = true;
                         }
                         if tainted {
+                            // Sets that fall under a listed class are left out; the others must still
+                            // re-export to exactly the bytes they occupied (the header is written from
+                            // the decoded header, whose length field is the received one).
                             w.rep.count("accepted_hostile_not_judged_listed_class_present", 1);
+                            let mut part = v.clone();
+                            let mut want: Vec<u8> = orig[..16.min(orig.len())].to_vec();
+                            let mut off = 16usize;
+                            let mut kept = vec![];
+                            for (f, t) in v.flowsets.iter().zip(taint.iter()) {
+                                let l = (f.header.length as usize).max(4);
+                                if !*t && off + l <= orig.len() {
+                                    want.extend_from_slice(&orig[off..off + l]);
+                                    kept.push(f.clone());
+                                }
+                                off += l;
+                            }
+                            if kept.is_empty() {
+                                continue;
+                            }
+                            w.rep.count("accepted_hostile_flowsets_judged_in_lossy_packets", kept.len() as u64);
+                            part.flowsets = kept;
+                            match part.to_be_bytes() {
+                                Ok(o) if o == want => {}
+                                Ok(o) => {
+                                    let at = o.iter().zip(want.iter()).position(|(x, y)| x != y).unwrap_or(o.len().min(want.len()));
+                                    bad = Some(div("ipfix/accepted/export", "bytes", format!("the {} sets of an accepted IPFIX message to which no listed lossy class applies re-export as {} bytes instead of the {} they occupied, first difference at offset {}", part.flowsets.len(), o.len(), want.len(), at)));
+                                }
+                                Err(e) => bad = Some(div("ipfix/accepted/export", "failed", format!("to_be_bytes failed: {}", e))),
+                            }
+                            if bad.is_some() {
+                                break;
+                            }
                             continue;
                         }
                         match v.to_be_bytes() {
